@@ -144,12 +144,18 @@ class UnitResult(dict):
 UNIT_DEADLINE = int(os.environ.get('VERIF_UNIT_DEADLINE', '0') or 0) or (270 if TIER != 'thorough' else 3300)
 
 
-class UnitTimeout(Exception):
+class UnitTimeout(BaseException):
+    """the unit's time cap.  A BaseException, and re-armed every few seconds: no `except Exception` inside the engine
+    can swallow it for good."""
     pass
 
 
+_armed = [False]
+
+
 def _alarm(signum, frame):
-    raise UnitTimeout()
+    if _armed[0]:
+        raise UnitTimeout()
 
 
 def run_unit(fn, args):
@@ -158,13 +164,16 @@ def run_unit(fn, args):
     t0 = time.time()
     try:
         signal.signal(signal.SIGALRM, _alarm)
-        signal.alarm(UNIT_DEADLINE)
+        signal.setitimer(signal.ITIMER_REAL, UNIT_DEADLINE, 5)
     except ValueError:
         pass
     try:
+        _armed[0] = True
         r = fn(*args)
+        _armed[0] = False
         r.setdefault('status', 'pass')
     except UnitTimeout:
+        _armed[0] = False
         r = dict(status='inconclusive', error='unit exceeded its time cap of %d s (symbolic execution or solving did not finish)' % UNIT_DEADLINE)
     except Unsupported as e:
         r = dict(status='inconclusive', error='unsupported MIR construct: %s' % e, tb=traceback.format_exc()[-1500:])
@@ -173,8 +182,9 @@ def run_unit(fn, args):
     except Exception as e:   # noqa
         r = dict(status='inconclusive', error='%s: %s' % (type(e).__name__, e), tb=traceback.format_exc()[-2500:])
     finally:
+        _armed[0] = False
         try:
-            signal.alarm(0)
+            signal.setitimer(signal.ITIMER_REAL, 0, 0)
         except ValueError:
             pass
     r['wall'] = round(time.time() - t0, 2)
